@@ -122,7 +122,7 @@ static void read_model_from_plan() {
     } mn++; if (mn > CAP) break; }
 }
 
-static void check_plan_equals_model(int base) {
+template <int base> static void check_plan_equals_model() {      // (template: assertion ids must be compile-time constants)
   int i = 0;
   auto pl = g->plan();
   for (auto it = pl.begin(); it; ++it) {
@@ -199,7 +199,7 @@ extern "C" int harness(void) {
   pd.planExists = n > 0 || (nondet_u8() & 1);
   read_model_from_plan();
   vassert(mn == n, 1010);
-  check_plan_equals_model(1020);
+  check_plan_equals_model<1020>();
   one_operation(true);
   // invariant re-established, with the occupied set the model predicts
   { bool occ2[CAP]; int cnt = 0; for (int i = 0; i < CAP; i++) occ2[i] = false;
@@ -208,7 +208,7 @@ extern "C" int harness(void) {
     vassert(inv_tasks(pd.tasks, occ2), 1005);
     vassert(inv_plan(pd, occ2, seq2, n2), 1006);
     vassert(n2 == mn && pd.tasks.count() == mn, 1007); (void)cnt; }
-  check_plan_equals_model(1030);
+  check_plan_equals_model<1030>();
   vwitness(9001);
 #elif MODE == 1
   Inst m; g = &m;
@@ -218,7 +218,7 @@ extern "C" int harness(void) {
   { bool occ[CAP]; for (int i = 0; i < CAP; i++) occ[i] = false; Long seq[CAP + 1]; int n = 0;
     vassert(inv_tasks(m._core.planData.tasks, occ), 1040); vassert(inv_plan(m._core.planData, occ, seq, n) && n == 0, 1041); }   // base case
   mn = 0;
-  for (int s = 0; s < KSTEPS; ++s) { one_operation(false); check_plan_equals_model(1050); }
+  for (int s = 0; s < KSTEPS; ++s) { one_operation(false); check_plan_equals_model<1050>(); }
   // slots are reusable indefinitely: once the plan is empty the full capacity is available again
   m.plan().clear(); mn = 0;
   for (int k = 0; k < CAP; ++k) { bool ok = m.plan().change(k % NST, (k + 1) % NST); vassert(ok, 1060); mo[mn] = k % NST; md[mn] = (k + 1) % NST;
@@ -227,7 +227,7 @@ extern "C" int harness(void) {
 #endif
     mn++; }
   vassert(!m.plan().change(0, 1), 1061);
-  check_plan_equals_model(1070);
+  check_plan_equals_model<1070>();
   vwitness(9001);
 #if MANUAL
   m.exit();
